@@ -5,6 +5,7 @@ import (
 	"fmt"
 	"math"
 	"sort"
+	"strings"
 
 	"github.com/EliCDavis/polyform/modeling"
 	"github.com/EliCDavis/polyform/modeling/meshops"
@@ -435,6 +436,59 @@ func FrameCase(sd StepDesc) hx.Case {
 	return c
 }
 
+// dyadic renders a finite float64 (times 2^shift) as the Coq pair (mantissa, exponent)%Z.
+func dyadic(x float64, shift int) string {
+	if x == 0 {
+		return "(0,0)%Z"
+	}
+	frac, e := math.Frexp(x) // x = frac * 2^e, 0.5 <= |frac| < 1
+	m := int64(math.Ldexp(frac, 53))
+	return fmt.Sprintf("(%s,%s)", zlit(m), zlit(int64(e-53+shift)))
+}
+
+func zlit(x int64) string {
+	if x < 0 {
+		return fmt.Sprintf("(%d)%%Z", x)
+	}
+	return fmt.Sprintf("%d%%Z", x)
+}
+
+// LapCase: LaplacianSmooth once more, its output values handed to Coq as exact dyadic rationals and
+// compared there (relative 1e-9) with the rational model Mesh/Smooth.v laplacian_mesh, for which the
+// laws of Properties/C03.v are proved.  Returns ok = false when the call does not apply.
+func LapCase(sd StepDesc) (c hx.Case, ok bool) {
+	d := sd.Ins[0]
+	o := sd.Op
+	pos := attrData(d, 3, o.attrName())
+	if o.Op != "laplacian" || pos == nil {
+		return c, false
+	}
+	o.Exp = d.Exp
+	res, class, _ := Apply(o, []modeling.Mesh{d.Mesh()})
+	if class != "ok" || !res[0].HasFloat3Attribute(o.attrName()) {
+		return c, false
+	}
+	c = hx.Case{Kind: "lap", Desc: sd}
+	it := res[0].Float3Attribute(o.attrName())
+	rows := make([]string, it.Len())
+	for i := 0; i < it.Len(); i++ {
+		v := it.At(i)
+		for _, x := range []float64{v.X(), v.Y(), v.Z()} {
+			if math.IsNaN(x) || math.IsInf(x, 0) {
+				c.GoFail = fmt.Sprintf("laplacian: value %d is %v", i, x)
+				x = 0
+			}
+		}
+		rows[i] = fmt.Sprintf("[%s;%s;%s]", dyadic(v.X(), d.Exp), dyadic(v.Y(), d.Exp), dyadic(v.Z(), d.Exp))
+	}
+	c.Coq = fmt.Sprintf("CLap %s %s %s %s %d%%nat [%s]", topoCoq[modeling.Topology(d.Topo)], CoqNats(d.Idx),
+		CoqVecs(pos), dyadic(o.Factor, 0), o.Iter, strings.Join(rows, ";"))
+	kb, _ := json.Marshal(sd)
+	c.Key = "lap|" + string(kb)
+	c.Nontriv = len(d.Idx) > 0 && o.Iter > 0
+	return c, true
+}
+
 // LawCase evaluates a composition law on the implementation.
 func LawCase(ld LawDesc) hx.Case {
 	c := hx.Case{Kind: "law", Desc: ld}
@@ -568,6 +622,10 @@ func Chain(run *hx.Run, r *hx.Rng, kinds []string, maxDepth int) {
 		}
 		run.Count(fmt.Sprintf("frame-scale:2^%d", -d.Exp))
 		run.Add(FrameCase(StepDesc{Ins: []Desc{d}, Op: o}))
+		if lc, ok := LapCase(StepDesc{Ins: []Desc{d}, Op: o}); ok && ValueOracle {
+			run.Count("lap:rational-model")
+			run.Add(lc)
+		}
 		return
 	}
 	switch r.Intn(10) {
@@ -663,6 +721,10 @@ func Chain(run *hx.Run, r *hx.Rng, kinds []string, maxDepth int) {
 				run.Count("candidate:" + c.FailKey)
 			}
 			run.Add(c)
+			if lc, ok := LapCase(sd); ok && ValueOracle {
+				run.Count("lap:rational-model")
+				run.Add(lc)
+			}
 			return
 		}
 		c, outs, class := OpCase(sd)
@@ -737,6 +799,14 @@ func Replay(run *hx.Run, kind string, raw json.RawMessage) bool {
 			return false
 		}
 		run.Add(LawCase(ld))
+	case "lap":
+		var sd StepDesc
+		if json.Unmarshal(raw, &sd) != nil {
+			return false
+		}
+		if lc, ok := LapCase(sd); ok {
+			run.Add(lc)
+		}
 	case "gen":
 		return ReplayGen(run, raw)
 	default:
